@@ -178,6 +178,9 @@ func (rm *ResponseManager) abortRequest(ctx context.Context, requestID graphsync
 			return nil
 		})
 	}
+	if err == queryexecutor.ErrNetworkError {
+		response.networkError = true
+	}
 	select {
 	case response.signals.ErrSignal <- err:
 	default:
@@ -385,6 +388,12 @@ func (rm *ResponseManager) finishTask(task *peertask.Task, p peer.ID, err error)
 	response, ok := rm.inProgressResponses[requestID]
 	if !ok {
 		return
+	}
+	if response.networkError && err != queryexecutor.ErrNetworkError {
+		// the executor finished or paused without seeing the network error signal: the response
+		// stream is closed, so no message, and no notification of one, can end this response later
+		response.responseStream.ClearRequest()
+		err = queryexecutor.ErrNetworkError
 	}
 	if _, ok := err.(hooks.ErrPaused); ok {
 		response.state = graphsync.Paused
